@@ -1,8 +1,8 @@
 """Reasons for properties that are not claimed."""
 NA = {
-    "C24": "Needs MD5/SHA-2/RC4/AES as uninterpreted functions (not built); revision 6 hashRev6 has a data-dependent loop over hash outputs.",
-    "C32": "Only composePageRotation's modular arithmetic is encodable; the property is about page tree surgery on whole documents.",
-    "C41": "Stream plumbing kernels only; equality of stream and file outputs, JSON validity and exit status need the whole CLI process.",
+    "C24": "Key derivation and the O/U/OE/UE/Perms entries ARE MD5/SHA-2/RC4/AES computations (Algorithms 2-13, hashRev6 with a data-dependent loop over hash outputs). Those cores are out of reach of the solver (S-box lookups at symbolic indices; a single query over a real MD5 of a symbolic key did not finish in 10 min) and with the cores abstracted - the only way C22/C23 are decidable - a comparison with the ISO algorithms is vacuous. Only Algorithm 1's hash input is pinned, under C22.",
+    "C32": "The property is about page-tree surgery on whole documents (insert/remove/collect pages, boxes through inheritance); the only closed kernel is composePageRotation's modular arithmetic, which does not carry the property. Not claimed.",
+    "C41": "Equality of stream and file outputs, JSON validity, absence of log text on stdout and the exit status are properties of the whole CLI process (cobra, os.Exit, encoding/json reflection). The stream plumbing of pkg/cli/io.go is executed symbolically under C01/C03 (VerifStreamInOut), which is as far as the technique reaches here.",
     "C10": "Cancellation latency / mid-read cancellation are timing and scheduling properties; the sequential symbolic executor has no clock and no goroutines, and the 'already cancelled' half needs NewContext/readXRefTable on a whole file, which is not encodable within reach.",
     "C19": "Needs the full writer and reader on whole documents (pointer-rich heaps, bufio, Flate, thousands of calls): outside a bounded SSA executor's reach; no kernel carries the property.",
     "C21": "operation ∘ writer ∘ validator on whole documents: not encodable within reach.",
